@@ -168,26 +168,40 @@ Proof. vm_compute. reflexivity. Qed.
 
 (* the monitor rejects: a dial of a foreign-IP address before the data *)
 Example monitor_rejects_unpaid_dial :
-  monitor_case [2; 9; 9; 9; 9;  1; 1; 0; 1; 0; 1; 30000; 1; 1; 7; 2;  1; 11; 1; 0; 30000;
-                2; 1; 0; 8192; 8186;  2; 12; 0; 1; 10; 1; 200; 0] <> [].
+  monitor_case [2; 9; 9; 9; 9;  1; 1; 0; 1; 0; 1; 30000; 1; 1; 7; 2;  1; 11; 1; 0; 30000;  0;
+                2; 1; 0; 8192; 8186;  2; 12; 0; 1; 10; 1; 200; 0;  0] <> [].
 Proof. vm_compute. discriminate. Qed.
 
 (* ... a dial of an address the request does not name *)
 Example monitor_rejects_foreign_address :
-  monitor_case [2; 9; 9; 9; 9;  1; 1; 0; 1; 0; 1; 0; 1; 1; 7; 1;  2; 12; 0; 5; 10; 1; 200; 0] <> [].
+  monitor_case [2; 9; 9; 9; 9;  1; 1; 0; 1; 0; 1; 0; 1; 1; 7; 1;  2; 12; 0; 5; 10; 1; 200; 0;  0] <> [].
 Proof. vm_compute. discriminate. Qed.
 
 (* ... a dial to another peer *)
 Example monitor_rejects_other_peer :
-  monitor_case [2; 9; 9; 9; 9;  1; 1; 0; 1; 0; 1; 0; 1; 1; 7; 1;  2; 12; 3; 1; 10; 1; 200; 0] <> [].
+  monitor_case [2; 9; 9; 9; 9;  1; 1; 0; 1; 0; 1; 0; 1; 1; 7; 1;  2; 12; 3; 1; 10; 1; 200; 0;  0] <> [].
 Proof. vm_compute. discriminate. Qed.
 
 (* ... an OK answer to a request naming only a private address *)
 Example monitor_rejects_private_only_ok :
-  monitor_case [2; 9; 9; 9; 9;  1; 1; 0; 1; 0; 1; 0; 1; 1; 5; 1;  1; 10; 1; 200; 0] <> [].
+  monitor_case [2; 9; 9; 9; 9;  1; 1; 0; 1; 0; 1; 0; 1; 1; 5; 1;  1; 10; 1; 200; 0;  0] <> [].
 Proof. vm_compute. discriminate. Qed.
+
+(* a third concurrent request of one peer under MaxConcurrentRequestsPerPeer = 2: two streams
+   that have not sent their request yet and one that owes dial data (clause 5) *)
+Example monitor_rejects_third_concurrent_stream :
+  monitor_case [2; 9; 9; 9; 2;  1; 1; 0; 1; 0; 1; 30000; 1; 1; 7; 2;  1; 11; 1; 0; 30000;  0;
+                5; 2; 0; 1; 10;  0;  0;   5; 3; 0; 1; 20;  0;  0] = [ERR_PROPERTY; 2; CL_CONCURRENT].
+Proof. vm_compute. reflexivity. Qed.
+
+(* the model refuses that third stream *)
+Example model_refuses_third_concurrent_stream :
+  flat_map snd (s_trace (mkCfg 9 9 9 2) s_init
+     [SReq 1 0 1 0 true [a_foreign] 30000; SOpen 2 0 1 10; SOpen 3 0 1 20]) =
+  [EAsk 1 0 30000; ERespond 3 ST_REJECTED 0].
+Proof. vm_compute. reflexivity. Qed.
 
 (* and it accepts the honest version of the same exchange *)
 Example monitor_accepts_same_ip_dial :
-  monitor_case [2; 9; 9; 9; 9;  1; 1; 0; 1; 0; 1; 0; 1; 1; 7; 1;  2; 12; 0; 1; 10; 1; 200; 0] = [].
+  monitor_case [2; 9; 9; 9; 9;  1; 1; 0; 1; 0; 1; 0; 1; 1; 7; 1;  2; 12; 0; 1; 10; 1; 200; 0;  0] = [].
 Proof. vm_compute. reflexivity. Qed.
